@@ -265,7 +265,7 @@ SlowReqs ==
 Init == C = NewC /\ M = NewM /\ obs = NoObs /\ last = [a |-> "init"] /\ steps = 0
 Next == \/ \E a \in Requests : Do(a)
         \/ \E evs \in Bursts : Do([a |-> "emit", evs |-> evs])
-        \/ \E q \in { x \in SlowReqs : x.a = "stream" => x.f \in {1, 8} } : Do([a |-> "slow", evs |-> Bursts3, req |-> q])
+        \/ \E q \in { x \in SlowReqs : x.seq = 1 /\ (x.a = "stream" => x.f \in {1, 8}) } : Do([a |-> "slow", evs |-> Bursts3, req |-> q])
         \/ Close
 Spec == Init /\ [][Next]_vars
 
